@@ -437,4 +437,10 @@ def r5(F, R):
     R.floor(3)
 
 
-RULES = [("R1", r1, None), ("R2", r2, None), ("R3", r3, None), ("R4", r4, None), ("R5", r5, None)]
+def r6_clone(F, R):
+    """The scenario type is copied from the classifier to the queue key and the attempt: a clone keeps the variant."""
+    n = roles.check_clone_faithful_table(F, R, r"^runner::basic::ScenarioType$", "clone-faithful")
+    R.floor(1)
+
+
+RULES = [("R1", r1, None), ("R2", r2, None), ("R3", r3, None), ("R4", r4, None), ("R5", r5, None), ("R6", r6_clone, None)]
